@@ -111,6 +111,8 @@ pub struct ProdLog {
     pub open_call: AtomicU64,
     /// the event id that send is about
     pub open_id: AtomicU64,
+    /// sends whose setter was kept suspended and resumed later (`SendAsyncGated`)
+    pub resumed: AtomicU32,
     /// stamp taken while the producer thread unwinds (0: it did not panic)
     pub panicked_at: AtomicU64,
 }
@@ -133,6 +135,7 @@ pub fn producer_body(ch: Arc<dyn Chan>, entry: Entry, ids: Vec<u64>, retries: u3
                 let t1 = stamp();
                 log.open_call.store(0, SeqCst);
                 let resumed = RESUMED_AT.with(|r| r.get());
+                if resumed > 0 { log.resumed.fetch_add(1, SeqCst); }
                 log.calls.lock().unwrap().push((id, if resumed > 0 { resumed } else { t0 }, t1, r == SendRes::Ok));
                 sched::op_done();
                 match r {
